@@ -137,15 +137,19 @@ Definition chk_search (x l : list Qc) (r : list (obs (list Z))) : bool :=
                 return {"res": [{"val": [int(v) for v in r]}]}
             except Exception as e:
                 return {"res": [{"exc": exn_name(e)}]}
+        held = []
         for s, fill in COMBOS:
             try:
                 r = sau.find_closest_element_indices_to_values(x, l, strategy=s, fill_not_valid=fill)
                 out.append({"val": [int(v) for v in r]})
+                held.append((len(out) - 1, r))
             except Exception as e:
                 out.append({"exc": exn_name(e)})
         # the searches only read: the arrays of the caller are what they were (all six calls above ran on the same two arrays,
         # so a call that rearranged them would also have changed the later answers)
-        res = {"res": out, "input_mutated": not (np.array_equal(x, np.array(case["x"], dtype=float)) and np.array_equal(l, np.array(case["lookup"], dtype=float)))}
+        # an answer stays what it was when it was returned: the caller keeps all six results and reads them after the last call
+        overwritten = [i for i, r in held if [int(v) for v in r] != out[i]["val"]]
+        res = {"res": out, "overwritten": overwritten, "input_mutated": not (np.array_equal(x, np.array(case["x"], dtype=float)) and np.array_equal(l, np.array(case["lookup"], dtype=float)))}
         # ... and each call answers for the array as it is NOW: the caller shifts the very same array object in place and asks again
         if case.get("x_f32"):
             return res
@@ -170,6 +174,10 @@ Definition chk_search (x l : list Qc) (r : list (obs (list Z))) : bool :=
 
     def oracle(self, case, obs):
         fails = []
+        if obs.get("overwritten"):
+            i = obs["overwritten"][0]
+            fails.append(Failure(aspect="result-overwritten", what="the result of search %s (strategy, fill) was changed by a later search with the same number of queries: x=%s lookup=%s" % (str(COMBOS[i]), case["x"], case["lookup"]),
+                                 signature={"aspect": "result-overwritten"}))
         if obs.get("input_mutated"):
             fails.append(Failure(aspect="input-mutated", what="a search modified the arrays handed in: x=%s lookup=%s" % (case["x"], case["lookup"]),
                                  signature={"aspect": "input-mutated"}))
